@@ -12,7 +12,7 @@ use crate::refmodel::{graph, tape_shadow};
 use crate::util::{Rng, Stats, Tier, fbits, guarded};
 use crate::{Mode, Prop};
 use fidget_core::context::Node;
-use fidget_core::eval::{BulkEvaluator, Tape};
+use fidget_core::eval::{BulkEvaluator, Tape, TracingEvaluator};
 use fidget_core::types::{Grad, Interval};
 use fidget_core::vm::{Choice, VmFunction};
 use fidget_jit::JitFunction;
@@ -184,11 +184,37 @@ fn check_backend<F: Backend>(
     st.add("sites_unmapped", site_map.iter().filter(|s| s.is_none()).count() as u64);
 
     let mut traces = vec![];
+    // The tracing evaluators are long-lived and alternate between this
+    // function and a small decoy with another number of choice clauses: what
+    // an evaluation reports must not depend on what the evaluator did before.
+    let (decoy, decoy_nv) = {
+        let mut cx = fidget_core::Context::new();
+        let (x, y) = (cx.x(), cx.y());
+        let a = cx.min(x, 0.5).unwrap();
+        let c = cx.min(y, x).unwrap();
+        let m = cx.max(a, c).unwrap();
+        let o = cx.and(m, y).unwrap();
+        let d = F::new(&cx, &[o]).unwrap();
+        let n = d.vars().len();
+        (d, n)
+    };
+    let decoy_pt = decoy.point_tape(Default::default());
+    let decoy_it = decoy.interval_tape(Default::default());
+    let f_pt = f.point_tape(Default::default());
+    let f_it = f.interval_tape(Default::default());
+    let mut pe = F::new_point_eval();
+    let mut ie = F::new_interval_eval();
     // ---- points
     for vals in inputs {
         let input: Vec<f32> = slot_of.iter().map(|&s| vals[s]).collect();
         child::note(&format!("C20 {name} point eval | program {:016x}", p.hash()));
-        let (out, tr) = point_eval(&f, &input).map_err(|e| Viol { sig: format!("{name}:point_error"), msg: e, detail: json!(null) })?;
+        let dv: Vec<f32> = (0..decoy_nv).map(|k| if vals[k % vals.len()].is_finite() { vals[k % vals.len()] } else { 0.25 }).collect();
+        let _ = pe.eval(&decoy_pt, &dv);
+        st.inc("decoy_evaluations_between_traces");
+        let (out, tr) = pe
+            .eval(&f_pt, &input)
+            .map(|(o, t)| (o.to_vec(), t.map(|t| t.as_slice().to_vec())))
+            .map_err(|e| Viol { sig: format!("{name}:point_error"), msg: e.to_string(), detail: json!(null) })?;
         if out.len() != roots.len() {
             return Err(Viol { sig: format!("{name}:point_out_len"), msg: format!("point eval returned {} outputs, wanted {}", out.len(), roots.len()), detail: json!(null) });
         }
@@ -262,7 +288,15 @@ fn check_backend<F: Backend>(
         let input: Vec<Interval> = slot_of.iter().map(|&s| Interval::new(bx[s].0, bx[s].1)).collect();
         let tinput: Vec<Interval> = tslot.iter().map(|&s| Interval::new(bx[s].0, bx[s].1)).collect();
         child::note(&format!("C20 {name} interval eval | program {:016x}", p.hash()));
-        let r = guarded(|| (interval_eval(&f, &input), interval_eval(&twin, &tinput)));
+        let dbox: Vec<Interval> = (0..decoy_nv).map(|k| { let (l, u) = bx[k % bx.len()]; if l.is_finite() && u.is_finite() { Interval::new(l, u) } else { Interval::new(-1.0, 1.0) } }).collect();
+        let r = guarded(|| {
+            let _ = ie.eval(&decoy_it, &dbox);
+            let r1 = ie
+                .eval(&f_it, &input)
+                .map(|(o, t)| (o.to_vec(), t.map(|t| t.as_slice().to_vec())))
+                .map_err(|e| e.to_string());
+            (r1, interval_eval(&twin, &tinput))
+        });
         let (r1, r2) = match r {
             Ok(x) => x,
             Err(_) => {
